@@ -24,6 +24,7 @@ char const* Blanks(int cnt) { (void)cnt; return msg_txt; }
 static TFamilyDescr g_fam; static int g_fam_known; static Word g_fam_asked;
 PFamilyDescr FindFamilyById(Word Id) { g_fam_asked = Id; return g_fam_known ? &g_fam : NULL; }
 /* record-line monitor */
+static int g_n_tot, g_n_badnum; static unsigned long g_tot_last; static char const* g_watch_seg; static int g_tot_seen_for_watch; static unsigned long g_tot_for_watch;
 static int g_n_fam, g_n_unknown, g_n_seg, g_n_start, g_n_len, g_n_end, g_n_entry, g_n_other;
 static unsigned long g_p_fam, g_p_unknown, g_p_seg, g_p_start, g_p_len, g_p_end, g_p_entry;
 static int mon_printf(char const* fmt, unsigned long a, unsigned long b) {
@@ -34,6 +35,12 @@ static int mon_printf(char const* fmt, unsigned long a, unsigned long b) {
     else if (fmt[0] == '%' && fmt[1] == '0' && fmt[2] == '4') { g_n_len++; g_p_len = a; }                 /* "%04X       "   */
     else if (fmt[0] == '%' && fmt[1] == '0' && fmt[2] == '8' && fmt[5] == '\n') { g_n_end++; g_p_end = a; }   /* "%08lX\n"       */
     else if (fmt[0] == '%' && fmt[1] == 's' && fmt[2] == '%' && fmt[3] == '0') { g_n_entry++; g_p_entry = b; } /* "%s%08lX\n"     */
+    else if (fmt[0] == '%' && (fmt[1] == 'u' || (fmt[1] == 'l' && fmt[2] == 'u'))) { g_n_tot++; g_tot_last = a; }   /* "%" PRIu32 : a segment total */
+    else if (fmt[0] == 'u' || (fmt[0] == 'l' && fmt[1] == 'u')) g_n_badnum++;                              /* conversion without '%': prints the letter */
+    else if (fmt[0] == '%' && fmt[1] == 's' && fmt[2] == '%' && fmt[3] == 's' && fmt[4] == '\n') {          /* "%s%s\n": unit + segment name ends a total line */
+        if ((char const*)b == g_watch_seg) { g_tot_seen_for_watch = g_n_tot; g_tot_for_watch = g_tot_last; }
+        g_n_tot = 0;
+    }
     else g_n_other++;
     return 0;
 }
@@ -45,6 +52,24 @@ static int mon0(void) { return 0; }
 #define putchar(c) mon0()
 static FILE* mon_fopen(void) { return GF_FILE(0); }
 #define fopen(n, m) mon_fopen()
+/* environment of main(): initialisers and option parsing are oracles (one file name argument, no options) */
+#include "nls.h"
+#include "cmdarg.h"
+void nls_init(void) {}
+Boolean NLS_Initialize(int* argc, char** argv) { (void)argc; (void)argv; return True; }
+void strutil_init(void) {}
+void nlmessages_init(char const* File, char* ProgPath, LongInt MsgId1, LongInt MsgId2) { (void)File; (void)ProgPath; (void)MsgId1; (void)MsgId2; }
+void ioerrs_init(char* ProgPath) { (void)ProgPath; }
+void opencatalog(PMsgCat Catalog, char const* File, char const* Path, LongInt File_MsgId1, LongInt File_MsgId2) { (void)Catalog; (void)File; (void)Path; (void)File_MsgId1; (void)File_MsgId2; }
+void cmdarg_init(char* ProgPath) { (void)ProgPath; }
+void ProcessCMD(int argc, char** argv, CMDRec const* pCMDRecs, int CMDRecCnt, CMDProcessed Unprocessed, char const* EnvName, CMDErrCallback ErrProc) {
+    int z; (void)argv; (void)pCMDRecs; (void)CMDRecCnt; (void)EnvName; (void)ErrProc;
+    (void)z; Unprocessed[0] = False; Unprocessed[1] = (Boolean)(1 < argc); Unprocessed[2] = (Boolean)(2 < argc); Unprocessed[3] = (Boolean)(3 < argc);
+}
+Boolean ProcessedEmpty(CMDProcessed Processed) { return (Boolean)!(Processed[1] || Processed[2] || Processed[3]); }
+char const* GetEXEName(char const* argv0) { return argv0; }
+size_t strmaxcpy(char* dest, char const* src, size_t Max) { size_t n = 0; if (!Max) return 0; while (n < 3 && src[n] && n + 1 < Max) { dest[n] = src[n]; n++; } dest[n] = 0; return n; }
+void AddSuffix(char* s, unsigned Size, char const* Suff) { (void)s; (void)Size; (void)Suff; }
 #define main plist_main
 #include "contracts/loop_defaults.h"
 #include "plist.c" /* the real /repo/plist.c */
@@ -92,4 +117,31 @@ void h_ProcessSingle_data(void) {
     VPOST(Sums[seg] == (LongWord)(sum0 + len), "C07: the segment total grows by the record's byte length");
     VPOST(k == seg || Sums[k] == sumk0, "C07: the totals of the other segments are unchanged");
     VREACH("end");
+}
+
+/* main(): the totals line of each segment shows the sum of the byte lengths of its records (one file, one record) */
+void h_main_totals(void) {
+    Byte cpu, seg; unsigned long start; unsigned len; char a0[2], a1[2]; char* argv[3]; int k;
+    gf_reset(); mk_file(0); gf[0].pos = 0; gf_cell_mode = 0;
+    msg_txt[0] = 'm'; msg_txt[1] = 0; a0[0] = 'p'; a0[1] = 0; a1[0] = 'f'; a1[1] = 0; argv[0] = a0; argv[1] = a1; argv[2] = NULL;
+    QuietMode = True;
+    VND(cpu, uchar); VND(seg, uchar); VND(start, ulong); VND(len, uint);
+    VASSUME(start <= 0xffffffffu && len <= 0xffff && seg < SegCount);
+    g_fam_known = 1; g_fam.Name = "fam"; g_fam.Id = cpu;
+    gf_script_i = 0; gf_script[0] = FileMagic; gf_script[1] = FileHeaderDataRec; gf_script[2] = cpu; gf_script[3] = seg; gf_script[4] = 1;
+    gf_script[5] = start; gf_script[6] = len; gf_script[7] = FileHeaderEnd; gf_script_n = 8;
+    VASSUME(gf[0].len == 12 + (long)len + 1);
+    VND(k, int); VASSUME(k >= 0 && k < SegCount);
+    VND(Sums[k], uint);                                   /* whatever was there before: main starts from zero */
+    g_watch_seg = SegNames[k]; g_tot_seen_for_watch = -1; g_n_tot = 0; g_n_badnum = 0;
+    (void)plist_main(2, argv);
+    VPOST(g_n_badnum == 0, "C07: every number of the summary is printed through a conversion (format string starts with %)");
+    if (k == seg) {
+        VPOST((len != 0 || k == SegCode) ? (g_tot_seen_for_watch == 1 && g_tot_for_watch == len) : g_tot_seen_for_watch == -1,
+              "C07: the total printed for a segment is the sum of the byte lengths of its records");
+        VREACH("seg");
+    } else {
+        VPOST(k == SegCode ? (g_tot_seen_for_watch == 1 && g_tot_for_watch == 0) : g_tot_seen_for_watch == -1, "C07: segments without records show no total (CODE shows 0)");
+        VREACH("other");
+    }
 }
